@@ -25,12 +25,34 @@ fn strides(case: &Value, params: &Params) -> Vec<isize> {
         .unwrap_or_else(|| vec![1])
 }
 
+/// An element whose order looks only at the key: Ord-equal elements are not identical.
+#[derive(Clone, Debug)]
+pub struct Keyed { pub key: i64, pub id: i64 }
+impl PartialEq for Keyed { fn eq(&self, o: &Self) -> bool { self.key == o.key } }
+impl Eq for Keyed {}
+impl PartialOrd for Keyed { fn partial_cmp(&self, o: &Self) -> Option<std::cmp::Ordering> { Some(self.cmp(o)) } }
+impl Ord for Keyed { fn cmp(&self, o: &Self) -> std::cmp::Ordering { self.key.cmp(&o.key) } }
+
+pub trait SortElem: Ord + Clone { fn ident(&self) -> i64; fn pad(k: usize) -> Self; }
+impl SortElem for i64 { fn ident(&self) -> i64 { 0 } fn pad(k: usize) -> Self { i64::MIN + 7 + k as i64 } }
+impl SortElem for Keyed { fn ident(&self) -> i64 { self.id } fn pad(k: usize) -> Self { Keyed { key: i64::MIN + 7 + k as i64, id: 900 + k as i64 } } }
+
 pub fn run(case: &Value, params: &Params, out: &mut Vec<Value>) {
-    let ev = jstr(case, "ev", "");
     let a = jints(&case["a"]);
     let k = a.iter().copied().max().unwrap_or(0);
     let mode = jstr(case, "vmap", "id");
-    let lane: Vec<i64> = a.iter().map(|&v| vmap_i64(v, k, mode)).collect();
+    if case.get("keyed").and_then(|x| x.as_bool()).unwrap_or(false) {
+        let lane: Vec<Keyed> = a.iter().enumerate().map(|(p, &v)| Keyed { key: vmap_i64(v, k, mode), id: p as i64 + 1 }).collect();
+        run_t(case, params, lane, out);
+    } else {
+        let lane: Vec<i64> = a.iter().map(|&v| vmap_i64(v, k, mode)).collect();
+        run_t(case, params, lane, out);
+    }
+}
+
+fn run_t<T: SortElem>(case: &Value, params: &Params, lane: Vec<T>, out: &mut Vec<Value>) {
+    let ev = jstr(case, "ev", "");
+    let keyed = case.get("keyed").and_then(|x| x.as_bool()).unwrap_or(false);
     let rm = rank_map(&lane);
     let before = ranks_of(&rm, &lane);
     let script: Vec<usize> = jints(&case["pv"]).into_iter().map(|x| x as usize).collect();
@@ -38,8 +60,8 @@ pub fn run(case: &Value, params: &Params, out: &mut Vec<Value>) {
     let frame = params.get("frame").map(|s| s == "1").unwrap_or(false);
     for stride in strides(case, params) {
         // pad cells hold distinct values below every lane value, so any write outside the view shows
-        let mut st = Strided::new(&lane, stride, 2, |k| i64::MIN + 7 + k as i64);
-        let pm0: Vec<i64> = st.parent.to_vec();
+        let mut st = Strided::new(&lane, stride, 2, |k| T::pad(k));
+        let pm0: Vec<T> = st.parent.to_vec();
         let vin = json!({"ptr": if st.n == 0 { 0 } else { st.addr(0) }, "len": st.n, "stride": stride});
         match ev {
             "partition" => {
@@ -90,7 +112,7 @@ pub fn run(case: &Value, params: &Params, out: &mut Vec<Value>) {
                     Err(()) => (vec![], vec![]),
                 };
                 let singles: Vec<Value> = idx.iter().map(|&i| {
-                    let mut st2 = Strided::new(&lane, stride, 2, |k| i64::MIN + 7 + k as i64);
+                    let mut st2 = Strided::new(&lane, stride, 2, |k| T::pad(k));
                     verif_hooks::set_script(vec![], Fallback::Drawn);
                     let r2 = guarded(|| st2.view_mut().get_from_sorted_mut(i));
                     verif_hooks::take_log();
@@ -104,7 +126,7 @@ pub fn run(case: &Value, params: &Params, out: &mut Vec<Value>) {
         }
         if frame {
             // parent buffer before/after in rank space (ranks over everything the buffer ever held)
-            let pm1: Vec<i64> = st.parent.to_vec();
+            let pm1: Vec<T> = st.parent.to_vec();
             let mut all = pm0.clone();
             all.extend(pm1.iter().cloned());
             let prm = rank_map(&all);
@@ -113,7 +135,20 @@ pub fn run(case: &Value, params: &Params, out: &mut Vec<Value>) {
             o.insert("pm1".into(), json!(ranks_of(&prm, &pm1)));
             o.insert("vin".into(), vin);
         }
+        if keyed {
+            // identities: Ord-equal elements are distinguishable, so a lost or duplicated element shows
+            let ida: Vec<i64> = lane.iter().map(|x| rank_of(&rm, x) * 4096 + x.ident()).collect();
+            let idafter: Vec<i64> = st.lane().iter().map(|x| rank_of(&rm, x) * 4096 + x.ident()).collect();
+            let o = out.last_mut().unwrap().as_object_mut().unwrap();
+            o.insert("ida".into(), json!(ida));
+            o.insert("idafter".into(), json!(idafter));
+        }
     }
+}
+
+/// An out-of-range position for a lane of length n: n, n+1, n+2, usize::MAX or usize::MAX - k (logged as BIG - k).
+fn oor_pos(rng: &mut Rng, n: i64) -> i64 {
+    match rng.below(6) { 0 | 1 => n, 2 => n + 1 + rng.range(0, 1), 3 => BIG, _ => BIG - 1 - rng.range(0, n + 1) }
 }
 
 /// Randomized / adversarial cases: longer lanes, heavy duplicates, type extremes,
@@ -144,26 +179,27 @@ pub fn gen(seed: u64, count: usize, tier: &str, params: &Params) -> Vec<Value> {
         }
         let fb = *rng.pick(&["drawn", "drawn", "first", "last", "middle"]);
         let vmap = *rng.pick(&["id", "ext"]);
+        let keyed = rng.chance(1, 4);
         let strides = json!([*rng.pick(&[1, 1, 2, -1, -3, 3, -2])]);
         let script: Vec<i64> = if rng.chance(1, 3) { (0..rng.below(8)).map(|_| rng.below(1000) as i64).collect() } else { vec![] };
         let oor = oor_den > 0 && rng.chance(1, oor_den);
         match *rng.pick(&kinds) {
             "partition" => {
-                let p = if oor || n == 0 { n + rng.range(0, 2) * rng.range(0, 1) + if rng.chance(1, 3) { BIG } else { 0 } } else { rng.range(0, n - 1) };
-                cases.push(json!({"ev": "partition", "a": a, "p": p.min(BIG), "vmap": vmap, "strides": strides}));
+                let p = if oor || n == 0 { oor_pos(&mut rng, n) } else { rng.range(0, n - 1) };
+                cases.push(json!({"ev": "partition", "a": a, "p": p.min(BIG), "vmap": vmap, "strides": strides, "keyed": keyed}));
             }
             "select" => {
-                let i = if oor || n == 0 { n + rng.range(0, 2) + if rng.chance(1, 3) { BIG } else { 0 } } else { rng.range(0, n - 1) };
-                cases.push(json!({"ev": "select", "a": a, "i": i.min(BIG), "pv": script, "fb": fb, "vmap": vmap, "strides": strides}));
+                let i = if oor || n == 0 { oor_pos(&mut rng, n) } else { rng.range(0, n - 1) };
+                cases.push(json!({"ev": "select", "a": a, "i": i.min(BIG), "pv": script, "fb": fb, "vmap": vmap, "strides": strides, "keyed": keyed}));
             }
             kind => {
                 let m = rng.below(if tier == "thorough" { 33 } else { 9 });
                 let mut idx: Vec<i64> = (0..m).map(|_| if n == 0 { 0 } else { rng.range(0, n - 1) }).collect();
                 if (oor || n == 0) && !idx.is_empty() {
                     let pos = rng.below(idx.len() as u64) as usize;
-                    idx[pos] = (n + rng.range(0, 2) + if rng.chance(1, 3) { BIG } else { 0 }).min(BIG);
+                    idx[pos] = oor_pos(&mut rng, n);
                 }
-                cases.push(json!({"ev": if kind == "bulkpair" { "bulkpair" } else { "bulk" }, "a": a, "idx": idx, "pv": script, "fb": fb, "vmap": vmap, "strides": strides}));
+                cases.push(json!({"ev": if kind == "bulkpair" { "bulkpair" } else { "bulk" }, "a": a, "idx": idx, "pv": script, "fb": fb, "vmap": vmap, "strides": strides, "keyed": keyed}));
             }
         }
     }
